@@ -171,7 +171,7 @@ def discharge_lib(site, bs):
     if site.kind == "panic" and kind == "array":
         for x in v.reach:
             cx = v.callee(x)
-            if cx is not None and cx.fn is not None and cx.name == "try_into":
+            if cx is not None and cx.fn is not None and (cx.name == "try_into" or (cx.name == "try_from" and cx.self_ty is not None and v.b.crate.types[cx.self_ty]["k"] == "array")):
                 k2, sbb, info, cur = follow_local_use(v, x, v.blocks[x]["term"]["dest"]["l"])
                 if k2 == "switch":
                     et = v.variant_target(info, "Err")
